@@ -350,12 +350,12 @@ def _started(program, names, arg, fresh=()):
     items = ListV([ListV([Const(n), ObjV("ctx:" + n, "GlobalContext")], "tuple") for n in names])
     started = []
 
-    def start(i, n, a, k, c, o):
-        started.append(c.env.get("global_ctx").oid[4:])
-        return [(c, NONE)]
-
-    pol = FlowPolicy(program, may_raise_all=False, cancel=False, summaries={"GlobalContextMgr.items": lambda i, n, a, k, c, o: [(c, items)], "global_ctx.start": start,
-                                                                            "global_ctx.set_auto_start": lambda i, n, a, k, c, o: [(c, NONE)]})
+    summ = {"GlobalContextMgr.items": lambda i, n, a, k, c, o: [(c, items)]}
+    for nm in names:
+        # (summaries keyed by the context object, not by the name of the loop variable that holds it)
+        summ[f"<ctx:{nm}>.start"] = lambda i, n, a, k, c, o, nm=nm: (started.append(nm), [(c, NONE)])[1]
+        summ[f"<ctx:{nm}>.set_auto_start"] = lambda i, n, a, k, c, o: [(c, NONE)]
+    pol = FlowPolicy(program, may_raise_all=False, cancel=False, summaries=summ)
     pol.loop_unroll = 2
     heap = {f"ctx:{n}.auto_start": Const(n not in fresh) for n in names}
     out = run_flow(program, "__init__.py::start_global_contexts", pol, args={"global_ctx_only": Const(arg)}, heap=heap)
